@@ -468,7 +468,7 @@ class Apply(Generic[A, B], Evaluatable[B]):
 
     def evaluate(self, options: Options) -> B:
         """Apply the function to the result of evaluating the object."""
-        value = self.evaluatable(options)
+        value = self.evaluatable.evaluate(options)
         return self.func(options)(value)
 
     def validate(self, options: Options) -> None:
@@ -506,7 +506,7 @@ class Bind(Generic[A, B], Evaluatable[B]):
         self.func = func
 
     def _bound(self, options: Options) -> Evaluatable[B]:
-        value = self.evaluatable(options)
+        value = self.evaluatable.evaluate(options)
         try:
             return self.func(value)
         except EvaluationError:
